@@ -750,6 +750,7 @@ func (x *Exec) chanInit(st *State, r string, size string) {
 	x.heapWrite(st, "chan.sent", SBV64, r, "", bvLit(0, 64))
 	x.heapWrite(st, "chan.recvd", SBV64, r, "", bvLit(0, 64))
 	x.heapWrite(st, "chan.cap", SBV64, r, "", size)
+	x.heapWrite(st, "chan.gotdata", SBool, r, "", "false")
 }
 
 func (x *Exec) chanSend(fr *Frame, st *State, ch Val, instr ssa.Instruction) {
@@ -772,7 +773,17 @@ func (x *Exec) chanRecv(fr *Frame, st *State, ch Val, t *ssa.UnOp) Val {
 		v := x.freshVal(st, "recv", tp.At(0).Type())
 		return Val{T: tp, L: append(v.L, x.smt.Fresh("recv.ok", SBool))}
 	}
-	return x.freshVal(st, "recv", et)
+	v := x.freshVal(st, "recv", et)
+	// record whether anything other than nil has been received (see chanGotData)
+	if isSlice(et) || isRefType(et) || isInterface(et) {
+		got := x.heapRead(st, "chan.gotdata", SBool, ch.L[0], "")
+		x.heapWrite(st, "chan.gotdata", SBool, ch.L[0], "", or(got, nonNilTerm(v)))
+		// ghost recvData (if declared): something other than nil was received from some channel
+		if g, ok := st.ghost["recvData"]; ok {
+			st.ghost["recvData"] = Val{T: g.T, L: []string{or(g.L[0], nonNilTerm(v))}}
+		}
+	}
+	return v
 }
 
 var _ = strings.HasPrefix
